@@ -949,3 +949,36 @@ pub fn sample_values<S: Strategy>(strategy: &S, n: usize, seed: u64, tag: &str) 
     );
     (0..n).filter_map(|_| strategy.new_tree(&mut runner).ok().map(|t| t.current())).collect()
 }
+
+
+/// Call-history stress for pure routines: `big()` is evaluated, then `small()` n times, then `big()`
+/// again, for every n in small windows around 2^8 / p and 2^16 / p (p = 1..=6): the result of `big()`
+/// must never change. Scratch buffers with a generation counter of 8 or 16 bits that is bumped p times
+/// per call go stale exactly at such distances. Returns the number of small calls made.
+pub fn wrap_stress<R: PartialEq + std::fmt::Debug>(big: impl Fn() -> R, small: impl Fn(), what: &str) -> Result<u64, String> {
+    let expect = big();
+    let mut calls = 0u64;
+    for base in [256isize, 65536] {
+        for p in 1..=6isize {
+            for d in -2..=2isize {
+                let n = base / p + d;
+                if n <= 0 {
+                    continue;
+                }
+                let first = big();
+                if first != expect {
+                    return Err(format!("{}: the result changes between calls: {:?} then {:?}", what, expect, first));
+                }
+                for _ in 0..n {
+                    small();
+                }
+                calls += n as u64;
+                let got = big();
+                if got != expect {
+                    return Err(format!("{}: {:?} before and {:?} after {} calls on a smaller input in between", what, expect, got, n));
+                }
+            }
+        }
+    }
+    Ok(calls)
+}
